@@ -45,7 +45,10 @@ Section Tables.
     end.
   Definition borrows_mutably (name ret_ty : string) : bool :=
     match find_sig "MiniVec" name with
-    | Some sg => (match s_recv sg with RMut => true | _ => false end) && contains ret_ty (s_ret sg) && negb (s_unsafe sg)
+    | Some sg => (match s_recv sg with RMut => true | _ => false end) && contains ret_ty (s_ret sg) && negb (s_unsafe sg) &&
+                 (* no lifetime parameter of its own: the iterator's lifetime can only be the elided one,
+                    i.e. the receiver's -- a free `'a` would detach the iterator from the borrow *)
+                 negb (existsb (fun g => prefix_at "'" g) (s_generics sg)) && negb (contains "'static" (s_ret sg))
     | None => false
     end.
   Definition draining_iterators_borrow : bool :=
